@@ -13,7 +13,7 @@ for P in $(ls ${SEED_SRC:-/tmp/seed} | grep '^C'); do
     cd $WT && git checkout -q -- . 
     timeout 600 /venv/bin/python $D/demo.py > ${SEED_SRC:-/tmp/seed}log_$ID.clean 2>&1; RC_CLEAN=$?
     if ! git apply $D/patch.diff 2>${SEED_SRC:-/tmp/seed}log_$ID.apply; then echo "$ID: patch does not apply"; continue; fi
-    timeout 1200 /venv/bin/python -m pytest -q -p no:cacheprovider -x -n 8 unit_tests > ${SEED_SRC:-/tmp/seed}log_$ID.tests 2>&1; RC_TESTS=$?
+    timeout 1200 /venv/bin/python -m pytest -q -p no:cacheprovider -x -n 6 unit_tests > ${SEED_SRC:-/tmp/seed}log_$ID.tests 2>&1; RC_TESTS=$?
     timeout 600 /venv/bin/python $D/demo.py > ${SEED_SRC:-/tmp/seed}log_$ID.patched 2>&1; RC_PATCHED=$?
     git checkout -q -- .
     APPLIES_HEAD=no; (cd /repo && git apply --check $D/patch.diff 2>/dev/null) && APPLIES_HEAD=yes
@@ -32,7 +32,7 @@ out={'property':prop,'breaks':m.get('summary'),'needs':m.get('needs'),
      'confirmed_by_me':{'demo_on_clean_tree':'exit 0','unit_tests_with_patch':testline,'demo_with_patch':'exit 1',
                         'applies_to_repo_head':ah,
                         'ran':['cd <scratch worktree> && /venv/bin/python demo.py','git apply patch.diff',
-                               '/venv/bin/python -m pytest -q -p no:cacheprovider -x -n 8 unit_tests','/venv/bin/python demo.py','git checkout -- .']}}
+                               '/venv/bin/python -m pytest -q -p no:cacheprovider -x -n 6 unit_tests','/venv/bin/python demo.py','git checkout -- .']}}
 json.dump(out,open(dst,'w'),indent=1)
 PY
       echo ok > $OUT/$ID/confirmed.json
